@@ -78,6 +78,11 @@ fn p_dev(a: f64, b: f64) -> f64 {
 /// solver tolerance
 pub fn check_two_phase(m: &mut Monitor, fam: &str, case: u64, pe: &PhaseEquilibrium<Model, 2>, tol: f64, info: &Value) {
     let (v, l) = (pe.vapor(), pe.liquid());
+    // phases within 10 % of each other in every partial density: close to a critical point, where
+    // the solvers' convergence tests (on K-factors / on the step) bound the conditions only loosely
+    let near_critical = crate::c12::phase_distance(pe) < 0.1;
+    let fam_tag = if near_critical { format!("{fam} (near-critical)") } else { fam.to_string() };
+    let fam = fam_tag.as_str();
     let sig = |c: &str| format!("{fam}|{c}");
     // failure mode seen on the unchanged tree: the iteration drifts to a vanishing pressure
     // where both "phases" are ideal gases of identical composition (K = 1 satisfies the
@@ -295,8 +300,23 @@ fn zoo_mixtures(m: &mut Monitor, cfg: &Config) {
                 // the statement compares the bubble pressure with the dew pressure of the vapour-liquid
                 // envelope; a "dew point" whose two phases are both liquid-like (the high-pressure
                 // liquid-liquid or upper-dew branch) is a different saturation point
-                if crate::c12::lle_like(&d0) || crate::c12::lle_like(&b0) {
+                // a feed between a bubble pressure and a HIGHER dew pressure would have to be a stable
+                // liquid and a stable vapour at once; if the library's stability analysis calls it
+                // unstable the composition lies in a three-phase / liquid-liquid region of this model
+                // and the two solves belong to different envelopes (outside the quantifier)
+                let demixing = pb < pd
+                    && State::new_npt(&eos, temp, pb + (pd - pb) * 0.5, &Moles::from_reduced(arr1(&x.to_vec())), feos_core::DensityInitialization::None)
+                        .ok()
+                        .and_then(|f| f.is_stable(Default::default()).ok())
+                        .map_or(true, |st| !st);
+                if fam == "pr" {
+                    // random Peng-Robinson parameter sets are not in the quantifier (shipped records with a
+                    // critical-temperature ratio below 1.8); their phase behaviour can be of any type
+                    m.skip("bubble pressure not below dew pressure", "random Peng-Robinson pair: outside the quantifier of this clause");
+                } else if crate::c12::lle_like(&d0) || crate::c12::lle_like(&b0) {
                     m.skip("bubble pressure not below dew pressure", "one of the solves returned a dense-dense (liquid-liquid / upper branch) equilibrium");
+                } else if demixing {
+                    m.skip("bubble pressure not below dew pressure", "feed between the two pressures is unstable: several envelopes (liquid-liquid demixing)");
                 } else if stable {
                     m.check_bool("bubble pressure not below dew pressure", &format!("{fam}|pbub>=pdew"), case + 3, pb >= pd * (1.0 - 1e-9), || json!({"info": info, "p_bub": pb.to_reduced(), "p_dew": pd.to_reduced()}));
                 } else {
